@@ -248,6 +248,61 @@ def plant_lookbehind_gain(d, refd, tid):
     return new, uniq
 
 
+def plant_exception_between_sites(d, refd, tid):
+    """ trypsin's exception rules ([CD]K|D, CK|[HY]: no cut) inside a stretch of reference
+    sequence that holds several ordinary sites: rewrite 19 codons of the CDS to
+    x x K x x x <motif> x x x R x x K x x x (x: neither K, R, P, C nor D) and return one SNV
+    in front of the stretch and one behind it, so that the stretch is one shared node between
+    two variant bubbles and is cut more than once. The motif itself is reference sequence;
+    no record touches it. """
+    import copy
+    from vf.model import COMP
+    ref = Ref(refd)
+    t = ref.tx(tid)
+    g = ref.gene_of(tid)
+    if not t.get('cds') or 'cds_start_NF' in t.get('tags', []):
+        return None
+    s, e = t['cds']
+    ncod = (e - s) // 3
+    if ncod < 30:
+        return None
+    idx = ref.tx_genomic(tid)
+    tg = ref.tx_gene(tid)
+    secs = set(t.get('secs', []))
+    n_win = 19
+    c0 = s + 3 * d.randint(4, ncod - n_win - 4)
+    lo, hi = c0 - 9, c0 + 3 * n_win + 9
+    if any(p in secs for p in range(lo, hi)) or \
+            any(abs(idx[p + 1] - idx[p]) != 1 for p in range(lo, hi - 1)):
+        return None
+    fill = ['GCT', 'GGT', 'CTT', 'TCT', 'GAA', 'ACT', 'GTT', 'CAA', 'AAT', 'ATT']
+    motif = d.choice([['TGT', 'AAA', 'GAT'], ['GAT', 'AAG', 'GAT'], ['TGT', 'AAA', 'CAT'],
+        ['TGC', 'AAG', 'TAT']])
+    x = lambda: d.choice(fill)
+    codons = [x(), x(), d.choice(['AAA', 'AAG', 'CGT']), x(), x(), x()] + motif + \
+        [x(), x(), x(), d.choice(['CGT', 'AGA', 'AAA']), x(), x(), d.choice(['AAA', 'AAG']),
+        x(), x(), x()]
+    new = copy.deepcopy(refd)
+    ch = list(new['chroms'][g['chrom']])
+    for k, nt in enumerate(''.join(codons)):
+        gp = idx[c0 + k]
+        ch[gp] = nt if g['strand'] == 1 else nt.translate(COMP)
+    new['chroms'][g['chrom']] = ''.join(ch)
+    ref2 = Ref(new)
+    records = vargen.gen_small(d, ref2, tid, d.randint(1, 2), spread=4, center=c0 - 4,
+        kinds=['snv'])
+    records += vargen.gen_small(d, ref2, tid, d.randint(1, 2), spread=4,
+        center=c0 + 3 * n_win + 4, kinds=['snv'])
+    uniq = []
+    for r in records:
+        if not any(y['g'] == r['g'] for y in uniq):
+            uniq.append(r)
+    if len(uniq) < 2:
+        return None
+    from vf.model import translate
+    return new, uniq, translate(''.join(codons))
+
+
 def plant_circ_start(d, refd, tid, circ):
     """ rewrite six bases of the circRNA loop to [KR]-M, in a frame that has no stop codon
     for a whole round (three rounds when the loop length is not a multiple of three), so that
